@@ -127,6 +127,9 @@ class Scenario(object):
                   middlewares=[HTTPCacheMiddleware(max_age=30)]),
             Route('/cache/gz', lambda: Response(big, mimetype='text/plain'),
                   middlewares=[HTTPCacheMiddleware(max_age=30), GzipMiddleware()]),
+            # files served from below the built-in response middlewares
+            ('/mwstatic/', Application([('/', StaticApplication(self.tmp)), StaticFileRoute('/one', os.path.join(self.tmp, 'a.txt'))],
+                                       middlewares=[GzipMiddleware(), HTTPCacheMiddleware(max_age=30)])),
         ]
         return Application(routes, debug=debug)
 
@@ -140,6 +143,12 @@ REQUESTS = [
     ('static', 'GET', '/static/a.txt', '', {}, b'', False), ('static', 'GET', '/static/b.bin', '', {}, b'', False),
     ('static', 'GET', '/static/empty', '', {}, b'', False), ('static', 'GET', '/static/sub/c.html', '', {}, b'', False),
     ('static', 'GET', '/static/a.txt', '', {'X-File-Wrapper': '1'}, b'', False),
+    ('static', 'GET', '/mwstatic/a.txt', '', {'Accept-Encoding': 'gzip'}, b'', False),
+    ('static', 'GET', '/mwstatic/b.bin', '', {'Accept-Encoding': 'gzip, deflate'}, b'', False),
+    ('static', 'GET', '/mwstatic/sub/c.html', '', {'Accept-Encoding': '*'}, b'', False), ('static', 'GET', '/mwstatic/a.txt', '', {}, b'', False),
+    ('static', 'GET', '/mwstatic/empty', '', {'Accept-Encoding': 'gzip'}, b'', False),
+    ('staticroute', 'GET', '/mwstatic/one', '', {'Accept-Encoding': 'gzip', 'X-File-Wrapper': '1'}, b'', False),
+    ('304', 'GET', '/mwstatic/a.txt', '', {'If-Modified-Since': 'Fri, 01 Jan 2100 00:00:00 GMT', 'Accept-Encoding': 'gzip'}, b'', False),
     ('staticroute', 'GET', '/file', '', {}, b'', False), ('staticroute', 'GET', '/binfile', '', {'X-File-Wrapper': '1'}, b'', False),
     ('304', 'GET', '/static/a.txt', '', {'If-Modified-Since': 'Fri, 01 Jan 2100 00:00:00 GMT'}, b'', False),
     ('304', 'GET', '/file', '', {'If-Modified-Since': 'Fri, 01 Jan 2100 00:00:00 GMT'}, b'', False),
@@ -445,7 +454,8 @@ def judge_siblings(sh, case, specs, outer, inner, inner2, got, ex):
 # ---- RerouteWSGI ----------------------------------------------------------------------------------------------------
 def judge_reroute(sh, rng):
     from clastic import Application, Route, RerouteWSGI, Response, Middleware
-    how = rng.pick(['raised', 'endpoint', 'raised-in-middleware'])
+    how = rng.pick(['raised', 'endpoint', 'raised-in-middleware', 'raised-in-with-block', 'endpoint-below-with-block',
+                    'endpoint-below-try-finally'])
     status = rng.pick(['200 OK', '201 Created', '404 Not Found', '418 I am a teapot', '302 Found', '500 Boom'])
     hdrs = [('Content-Type', rng.pick(['text/plain', 'application/x-verif; v=1'])), ('X-Target', 'yes'),
             ('X-Dup', 'a'), ('X-Dup', 'b')]
@@ -468,6 +478,39 @@ def judge_reroute(sh, rng):
         app = Application([Route(pattern, lambda x: ep())], slash_mode=mode)
     elif how == 'endpoint':
         app = Application([Route(pattern, RerouteWSGI(target))], slash_mode=mode)
+    elif how == 'raised-in-with-block':
+        # application code commonly runs inside context managers (transactions, timers, locks): the exception that
+        # carries the reroute passes through their __exit__ on its way out
+        import contextlib
+
+        @contextlib.contextmanager
+        def timed():
+            try:
+                yield
+            finally:
+                seen['timed'] = True
+
+        def ep():
+            with timed():
+                raise RerouteWSGI(target)
+        app = Application([Route(pattern, lambda x: ep())], slash_mode=mode)
+    elif how in ('endpoint-below-with-block', 'endpoint-below-try-finally'):
+        import contextlib
+
+        @contextlib.contextmanager
+        def span():
+            yield
+
+        class W(Middleware):
+            def request(self, next):
+                if how == 'endpoint-below-with-block':
+                    with span():
+                        return next()
+                try:
+                    return next()
+                finally:
+                    seen['finally'] = True
+        app = Application([Route(pattern, RerouteWSGI(target))], middlewares=[W()], slash_mode=mode)
     else:
         class M(Middleware):
             def request(self, next):
